@@ -38,6 +38,14 @@ claimed["C20"] = dict(engine="cesium-stream", cat="exploration", ref="DESIGN.md 
    text="Writers (contending pairs with drawn authorities; persist+stream / stream-only / persist-only), streamer consumers (always-ready or sleeping in virtual time) and streamer controllers (re-subscribe, disconnect), optionally a database close, run as goroutines of one real database under the seeded scheduler with the relay's slow-consumer timer on the virtual clock. Oracles over the recorded history: per streamer and writer the received frames are a subsequence of the write log (no duplicate, no reorder, no mixing), every received key was subscribed no later than the receipt, nothing from unauthorized or persist-only writes is relayed, stable always-ready streamers receive every frame, the persisted content equals the writes reported authorized, no deadlock/stall and bounded virtual idle time.",
    note="Streamers are connected before the writers start and the relay is given virtual time to flush before they are disconnected. Completeness is asserted only without stall quanta and without a concurrent database close. After a database close streamers are abandoned, not waited for (disconnecting after the relay has shut down blocks for ever: observation recorded in DESIGN.md).",
    tech=TECH+": goroutine-tier schedules over instrumented channel/lock/atomic points with virtual-time slow-consumer timers; history oracles (subsequence, filter, completeness, bounded liveness)")
+claimed["C06"] = dict(engine="aspen-kvcore", cat="exploration", ref="DESIGN.md §5 C06",
+   text="(a) kvcore: the real ingress pipeline segments of aspen/internal/kv (filter+persist, persist splitter, recovery transform, gossip store) assembled in-package and fed seeded operation sets in every drawn order, duplication and batching, interleaved with local writes, on several replicas: replicas that received the same set hold identical values, digests and tombstones, no applied operation is replaced by an older one, the winner is the (version, leaseholder) maximum. (b) cluster: 2-4 complete aspen nodes (pledge, membership gossip, kv pipeline, start-up recovery) in one synctest bubble over the repository's in-memory transport, every goroutine under the seeded scheduler, a typed transport wrapper injecting loss, lost replies, duplication, delay and partitions per message kind, node restarts over surviving engines; oracles: stored versions never regress on any node; once faults stop all nodes agree within 20 s of virtual time and hold the latest acknowledged write of each key.",
+   note="Writes go through a gateway only once it knows the key (non-transferable leases). Unary RPCs (lease forward, pledge) are lost or delayed but not duplicated. Three recorded known findings (rumor dies out at the feedback threshold; a restarted holder forgets infected operations) are attributed by a structural signature computed from the recorded message log; other stalls are violations. Deterministic at GOMAXPROCS=1 only.",
+   tech=TECH+": whole nodes in a synctest bubble under a seeded goroutine scheduler, simulated network with per-kind faults and restarts, convergence/bounded-liveness oracles; in-package permutation/duplication engine for the ingress pipeline")
+claimed["C13"] = dict(engine="aspen-kvcore", cat="exploration", ref="DESIGN.md §5 C13",
+   text="Same two engines as C06 with observer oracles: (a) kvcore: the ingress segment's accepted output (the only thing routed to the persist splitter and on to observers) carries each (key, version, leaseholder) at most once per node under any redelivery/duplication order, never an operation that lost to a stored newer one, and every operation that changed the stored state; (b) cluster: on every node an unfiltered and a host-leaseholder-filtered subscriber record notifications while gossip, recovery, duplication, loss and restarts run: no write is notified twice, never an older write after a newer one of the same key, the filtered stream is a subsequence of the unfiltered one.",
+   note="Cluster-level notifications are identified by their unique written value (the observable exposes no version). Completeness is asserted in the kvcore engine only (subscriber keeps up by construction).",
+   tech=TECH+": seeded delivery orders/duplication into the real ingress pipeline plus whole-node simulation with network faults; per-subscriber history oracles")
 not_applicable = {
  "C19": "Pure function of (source, arguments): the Arc compiler/analyzer/wazero call path has no goroutines, timers, I/O, transport or storage for a scheduler, clock or fault injector to act on; generating programs would be input generation in simulator costume (DESIGN.md §1).",
 }
@@ -78,6 +86,8 @@ m = {
   {"name": "cesium-conc", "path": "/verif/harness/cesium/zz_verif_c09_test.go", "serves_properties": ["C09"], "kind_free_text": "goroutine-tier deterministic simulation (seeded scheduler) + race-detector unit"},
   {"name": "cesium-control", "path": "/verif/harness/cesium/internal/control", "serves_properties": ["C05"], "kind_free_text": "in-package op-tier + goroutine-tier simulation of the control package"},
   {"name": "cesium-stream", "path": "/verif/harness/cesium/zz_verif_c20_test.go", "serves_properties": ["C20", "C05"], "kind_free_text": "goroutine-tier simulation of writers, relay and streamers"},
+  {"name": "aspen-kvcore", "path": "/verif/harness/aspen/internal/kv", "serves_properties": ["C06", "C13"], "kind_free_text": "in-package seeded delivery orders into the real kv ingress pipeline"},
+  {"name": "aspen-cluster", "path": "/verif/harness/aspen/zz_verif_cluster_test.go", "serves_properties": ["C06", "C13"], "kind_free_text": "whole aspen nodes under the seeded scheduler over the in-memory transport with fault-injecting wrapper"},
   {"name": "cesium-crash", "path": "/verif/harness/cesium/zz_verif_c02_test.go", "serves_properties": ["C02"], "kind_free_text": "crash-point enumeration over the simulated disk's mutation log"},
  ],
  "checks": checks,
